@@ -25,6 +25,7 @@ ASSUMPTIONS = ["a connection belongs to a peer when the node dialled that peer, 
                "between 'some configured peer has a connection' and 'a configured peer is ready' the readiness flag "
                "may have either value"]
 TIMEOUT = {"quick": 900, "thorough": 3600}
+SCTP_CLONES = {"quick": ['walk3', 'exh11'], "thorough": ['walk14', 'walk15', 'exh15']}
 ACTIONS = ["in1", "in2", "in3", "cer_ok", "cer_unknown", "cer_nocommon", "cea_ok", "cea_rej", "dpr", "gone", "reset",
            "adv_ce", "adv_idle", "adv_to_dwr", "dwa", "node_close", "req"]
 NAMES = ["peer1.verif.example", "peer2.verif.example", "peer3.verif.example"]
